@@ -410,6 +410,10 @@ func (r *rewriter) callExpr(c *astutil.Cursor, x *ast.CallExpr) {
 		}
 		c.Replace(call(rt(fn), r.addrOf(sel.X), site))
 		r.count("cond")
+	case pkg == "sync" && recv == "Once" && name == "Do":
+		// Once.Do blocks concurrent callers until the first has finished: a blocking primitive like a mutex
+		c.Replace(call(rt("OnceDo"), r.addrOf(sel.X), x.Args[0], site))
+		r.count("once")
 	case pkg == "sync" && recv == "WaitGroup" && name == "Wait":
 		c.Replace(call(rt("WGWait"), r.addrOf(sel.X), site))
 		r.count("wgwait")
